@@ -182,7 +182,8 @@ class FnPool:
         params = d.get("params")
         if d.get("src") or not params or len(params) != arity or len(set(params)) != arity:
             params = None
-        key = (name, repr(body), arity, d.get("bad") or False, tuple(params or ()))
+        # "copy": another function OBJECT with the same name and the same source text (a helper copied into two modules)
+        key = (name, repr(body), arity, d.get("bad") or False, tuple(params or ()), d.get("copy", 0))
         if key not in self.by:
             if d.get("src"):
                 fn, mod = compile_in_module(name, d["src"]["e"], arity, d["src"]["floats"])
@@ -840,6 +841,9 @@ def features(content):
         "ia_var": any("ia" in v for _, v in content["vars"]),
         "var_without_eq": any(k not in have for k, _ in content["vars"]),
         "no_eq": len(have) == 0 and len(content["vars"]) > 0,
+        # a component (or `time`) is called like a generated derivative name d<x>dt
+        "dname_clash": bool({f"d{k}dt" for k, _ in content["vars"]}
+                            & ({k for kind in ("vars", "pars", "derived", "rxns") for k, _ in content[kind]} | {"time"})),
         "one_var": len(content["vars"]) == 1,
         "dyn_coef": any("c" not in c for _, r in content["rxns"] for _, c in r["st"]),
     }
